@@ -28,15 +28,16 @@ SOURCES = ['src/opus_encoder.c', 'src/opus_decoder.c', 'celt/celt_encoder.c', 'c
            'src/opus_multistream_encoder.c', 'src/opus_multistream_decoder.c', 'src/opus_projection_encoder.c',
            'src/opus_projection_decoder.c', 'src/repacketizer.c', 'src/opus_private.h', 'celt/x86/x86cpu.c']
 REQUIRED_THEOREMS = ['OpusProps.C12.reset_eq_init', 'OpusProps.C12.reset_indistinguishable',
-                     'OpusProps.C12.dec_reset_eq_init',
+                     'OpusProps.C12.dec_reset_eq_init', 'OpusProps.C12.dec_reset_indistinguishable',
+                     'OpusProps.C12.ms_reset_eq_init', 'OpusProps.C12.ms_dec_reset_eq_init',
                      'OpusProps.C12.no_self_pointers', 'OpusProps.C12.get_size_covers_state',
                      'OpusProps.C12.model_fields_cover_struct', 'OpusProps.C12.init_matches_code']
 UNPROVED = [
-    'decoder call sequences: DecObsEq is proved to hold between a reset and a new decoder, but not to be preserved by a '
-    'decode-call footprint (no decode model here); what a decode call reads is searched by the twin harness',
-    'encode footprint = code: which members each phase of opus_encode_native reads before writing is a hand transcription '
-    '(OpusModel.ResetState.View / encodeStep); it is validated by the attribution search (repairing one surviving member at a '
-    'time), not derived from the C source',
+    'encode / decode footprint = code: which members each phase of opus_encode_native / opus_decode_native reads before '
+    'writing is a hand transcription (OpusModel.ResetState.View / DecView, encodeStep / decodeStep); it is validated by the '
+    'attribution and poke-sensitivity searches (one member changed at a time), not derived from the C source',
+    'multistream / projection encode and decode calls (rate allocation, surround analysis, channel mapping, mixing matrices) '
+    'are not modelled: ms_reset_eq_init is the state form plus per-stream call sequences',
 ]
 RULE = ('twin-object cases drawn from the seed: (object kind, Fs, channels, application / mapping family, scenario) + a random '
         'history of setting requests, getter sweeps, resets and encode/decode calls (float, int16, int24; 2.5-120 ms; tiny '
